@@ -79,3 +79,55 @@ Qed.
 
 Example rel_example : rel [1;2;3] [1;2;4;5] = [Up; Seg 4; Seg 5] /\ rel [1;2] [1;2] = [] /\ rel [1;2;3] [1] = [Up; Up].
 Proof. repeat split. Qed.
+
+(* ---- AbsFromCwd: the sort key of the diagnostics (finding F107) ---- *)
+Lemma removelast_snoc {A} (l : list A) x : removelast (l ++ [x]) = l.
+Proof. apply removelast_last. Qed.
+
+Lemma join_ups (acc k : list seg) (r : list rseg) :
+  join_clean (acc ++ k) (map (fun _ : seg => Up) k ++ r) = join_clean acc r.
+Proof.
+  revert acc r. induction k as [|x k IH] using rev_ind; intros acc r.
+  - rewrite app_nil_r. reflexivity.
+  - rewrite map_app. cbn [map]. rewrite <- app_assoc. cbn [app].
+    (* one Up for x is consumed last: reorder *)
+    assert (E : map (fun _ : seg => Up) k ++ Up :: r = Up :: map (fun _ : seg => Up) k ++ r).
+    { clear. induction k as [|y k IHk]; cbn; [reflexivity|]. rewrite IHk. reflexivity. }
+    rewrite E. cbn [join_clean]. rewrite app_assoc, removelast_snoc. apply IH.
+Qed.
+
+Lemma join_segs (acc t : list seg) : join_clean acc (map Seg t) = acc ++ t.
+Proof.
+  revert acc. induction t as [|s t IH]; intros acc; cbn [map join_clean].
+  - rewrite app_nil_r. reflexivity.
+  - rewrite IH, <- app_assoc. reflexivity.
+Qed.
+
+(* the round trip: whatever the working directory, the key of a file is its absolute name *)
+Theorem abs_of_rel : forall cwd t, join_clean cwd (rel cwd t) = t.
+Proof.
+  assert (G : forall pre cwd t, join_clean (pre ++ cwd) (rel cwd t) = pre ++ t).
+  { intros pre cwd. revert pre. induction cwd as [|b cwd IH]; intros pre t.
+    - rewrite app_nil_r. replace (rel [] t) with (map Seg t) by (destruct t; reflexivity). apply join_segs.
+    - destruct t as [|x t].
+      + cbn [rel]. rewrite (join_ups pre (b :: cwd) (map Seg [])). cbn. rewrite app_nil_r. reflexivity.
+      + cbn [rel]. destruct (Nat.eqb b x) eqn:E.
+        * apply Nat.eqb_eq in E. subst x.
+          replace (pre ++ b :: cwd) with ((pre ++ [b]) ++ cwd) by (rewrite <- app_assoc; reflexivity).
+          rewrite IH, <- app_assoc. reflexivity.
+        * rewrite (join_ups pre (b :: cwd) (map Seg (x :: t))). apply join_segs. }
+  intros cwd t. exact (G [] cwd t).
+Qed.
+
+Theorem sort_key_cwd_independent : forall c1 c2 t,
+  abs_from_cwd c1 (rel_to_cwd c1 (Abs t)) = abs_from_cwd c2 (rel_to_cwd c2 (Abs t)).
+Proof. intros c1 c2 t. cbn [rel_to_cwd abs_from_cwd]. rewrite !abs_of_rel. reflexivity. Qed.
+
+(* relocation: the order of two files of one module does not depend on where the module lives *)
+Theorem lex_relocate : forall r p q, lex_leb (r ++ p) (r ++ q) = lex_leb p q.
+Proof. induction r as [|x r IH]; intros p q; cbn [app lex_leb]; [reflexivity|]. rewrite Nat.eqb_refl. apply IH. Qed.
+
+Example sort_key_example :
+  abs_from_cwd [1; 2; 3] (rel_to_cwd [1; 2; 3] (Abs [1; 2; 4; 5])) = [1; 2; 4; 5] /\
+  rel_to_cwd [1; 2; 3] (Abs [1; 2; 4; 5]) = Relp [Up; Seg 4; Seg 5].
+Proof. split; reflexivity. Qed.
